@@ -178,10 +178,24 @@ def run_all_configs(items, configs, values):
     return out
 
 
-def run_spec(items):
+def run_spec(items, timeout=60):
+    """The reference semantics on all items in one driver process; when that does not finish (a generated
+    program that does not terminate makes the fuelled evaluator very slow) every item is run on its own with a
+    short limit and the ones that still do not finish get the record `timeout` (they are skipped, not judged)."""
     text = SEP.join(PSEP.join(p) for p in items) + "\n"
-    rc, out, err = C.run_bin([C.driver_path("c02driver")], text, timeout=900)
-    return parse_records(out), rc
+    rc, out, err = C.run_bin([C.driver_path("c02driver")], text, timeout=timeout)
+    recs = parse_records(out)
+    if rc == 0 and len(recs) == len(items):
+        return recs, rc
+
+    def one(it):
+        rc1, out1, _ = C.run_bin([C.driver_path("c02driver")], PSEP.join(it) + "\n", timeout=15)
+        r = parse_records(out1)
+        if rc1 == 0 and len(r) == 1 and len(r[0]) == len(it):
+            return r[0]
+        return [{"out": "", "res": ("err", "timeout")} for _ in it]
+
+    return C.pool_map(one, items), 0
 
 
 def load_switches():
@@ -520,7 +534,10 @@ def process_many(ctx, batches, configs, values, stats, known):
     for b in batches:
         recs = {name: r[off: off + len(b.items)] for name, r in allrecs.items()}
         off += len(b.items)
+        t1 = time.time()
         process(ctx, b, configs, values, stats, known, recs)
+        if time.time() - t1 > 5:
+            ctx.log("verdicts of %s took %.0fs" % (b.label, time.time() - t1))
 
 
 def process(ctx, batch, configs, values, stats, known, recs=None):
